@@ -895,6 +895,8 @@ func corpusGM(cfg *config) []string {
 		"read mut " + hexBytes(nest("STRM", klv("TYPE", 'c', 1, 5, []byte("Lffff")), append([]byte{'F', 'A', 'C', 'E', 0, 20, 0, 1}, klv("ABCD", 'B', 1, 12, make([]byte, 12))...))),
 		"read wf " + hexBytes(nil),
 		"read mut " + hexBytes([]byte{1, 2, 3}),
+		// a date whose fraction follows a comma (time.Parse takes it for the decimal point: the model once did not)
+		"read mut " + hexBytes(nest("DEVC", klv("DVID", 'L', 4, 1, beInts(4, 4)), klv("GPSU", 'U', 16, 1, []byte("680513040034,368")))),
 		// a sensor payload just beyond 64 KiB (size x repeat does not fit 16 bits), and the largest repeat count
 		"read wf " + hexBytes(nest("DEVC", nest("STRM", klv("SCAL", 's', 2, 1, []byte{0, 2}), klv("ACCL", 's', 6, 10923, bytes.Repeat([]byte{0, 10, 0, 20, 0, 30}, 10923))))),
 		"read wf " + hexBytes(nest("DEVC", nest("STRM", klv("SHUT", 'B', 1, 65535, bytes.Repeat([]byte{7}, 65535))))),
